@@ -307,6 +307,95 @@ func c06(repo string, out *fg.Out) error {
 		}
 	}
 
+	// ---- size limit: what the writers compare with MaxWALPayloadSize is the length they write
+	//      AppendRaw:          `len(payload) > MaxWALPayloadSize`, length field uint32(len(payload))
+	//      AppendRawWithMeta:  `totalPayloadLen > MaxWALPayloadSize`, totalPayloadLen := envelopeHeaderLen + len(payload),
+	//                          envelopeHeaderLen := 1 + 2 + len(dbBytes), length field uint32(totalPayloadLen)
+	//      reader:             `payloadLen > MaxWALPayloadSize` (same identifier = same constant; checked above)
+	{
+		norm := func(f *fg.File, n ast.Node) string { return strings.ReplaceAll(f.Text(n), " ", "") }
+		hasCond := func(f *fg.File, fd *ast.FuncDecl, cond string) bool {
+			ok := false
+			ast.Inspect(fd.Body, func(n ast.Node) bool {
+				if is, y := n.(*ast.IfStmt); y && norm(f, is.Cond) == cond && len(is.Body.List) == 1 {
+					if _, r := is.Body.List[0].(*ast.ReturnStmt); r {
+						ok = true
+					}
+				}
+				return true
+			})
+			return ok
+		}
+		hasAssign := func(f *fg.File, fd *ast.FuncDecl, text string) bool {
+			ok := false
+			ast.Inspect(fd.Body, func(n ast.Node) bool {
+				if as, y := n.(*ast.AssignStmt); y && norm(f, as) == text {
+					ok = true
+				}
+				return true
+			})
+			return ok
+		}
+		hasCall := func(f *fg.File, fd *ast.FuncDecl, text string) bool {
+			ok := false
+			ast.Inspect(fd.Body, func(n ast.Node) bool {
+				if c, y := n.(*ast.CallExpr); y && norm(f, c) == text {
+					ok = true
+				}
+				return true
+			})
+			return ok
+		}
+		f1, ar := fg.FindFunc(files, "Writer", "AppendRaw")
+		if !hasCond(f1, ar, "len(payload)>MaxWALPayloadSize") || !hasCall(f1, ar, "binary.BigEndian.PutUint32(entryData[0:4],uint32(len(payload)))") {
+			return fmt.Errorf("AppendRaw: the size test is no longer `len(payload) > MaxWALPayloadSize` on the length it writes")
+		}
+		f2, am := fg.FindFunc(files, "Writer", "AppendRawWithMeta")
+		if !hasCond(f2, am, "totalPayloadLen>MaxWALPayloadSize") ||
+			!hasAssign(f2, am, "totalPayloadLen:=envelopeHeaderLen+len(payload)") ||
+			!hasAssign(f2, am, "envelopeHeaderLen:=1+2+len(dbBytes)") ||
+			!hasCall(f2, am, "binary.BigEndian.PutUint32(entryData[0:4],uint32(totalPayloadLen))") {
+			return fmt.Errorf("AppendRawWithMeta: the size test is no longer `totalPayloadLen > MaxWALPayloadSize` with totalPayloadLen = envelope header + payload = the length it writes")
+		}
+	}
+
+	// ---- Reader→Recovery composition: ReadAll ends with `return entries, nil` (stopping on damaged
+	//      framing is NOT an error), and RecoverWithOptions skips a file only when ReadAll errs.
+	{
+		_, readAllFn := fg.FindFunc(files, "Reader", "ReadAll")
+		if readAllFn == nil {
+			return fmt.Errorf("Reader.ReadAll not found")
+		}
+		lastRet, ok := readAllFn.Body.List[len(readAllFn.Body.List)-1].(*ast.ReturnStmt)
+		if !ok || strings.ReplaceAll(rf.Text(lastRet), " ", "") != "returnentries,nil" {
+			return fmt.Errorf("ReadAll: no longer ends with `return entries, nil` — a torn tail would become an error and Recovery drops the whole file")
+		}
+		rcF, rec := fg.FindFunc(files, "Recovery", "RecoverWithOptions")
+		if rec == nil {
+			return fmt.Errorf("Recovery.RecoverWithOptions not found")
+		}
+		okShape := false
+		ast.Inspect(rec.Body, func(n ast.Node) bool {
+			bl, y := n.(*ast.BlockStmt)
+			if !y {
+				return true
+			}
+			for i := 0; i+1 < len(bl.List); i++ {
+				if strings.ReplaceAll(rcF.Text(bl.List[i]), " ", "") == "entries,err:=reader.ReadAll()" {
+					if is, y2 := bl.List[i+1].(*ast.IfStmt); y2 && rcF.Text(is.Cond) == "err != nil" && len(is.Body.List) > 0 {
+						if br, y3 := is.Body.List[len(is.Body.List)-1].(*ast.BranchStmt); y3 && br.Tok == token.CONTINUE {
+							okShape = true
+						}
+					}
+				}
+			}
+			return true
+		})
+		if !okShape {
+			return fmt.Errorf("RecoverWithOptions: `entries, err := reader.ReadAll(); if err != nil { …; continue }` not found")
+		}
+	}
+
 	// ---- recovery order: findWALFiles sorts the Glob result (name order) with sort.Slice by
 	//      ModTime; comparator strictness decides what happens to files with equal mtimes.
 	recF, findWAL := fg.FindFunc(files, "Recovery", "findWALFiles")
@@ -503,6 +592,10 @@ func c06(repo string, out *fg.Out) error {
 	fmt.Fprintf(w, "def appendCopiesBeforeEnqueue : Bool := true\n")
 	fmt.Fprintf(w, "/-- findWALFiles' mtime comparator: true = `Before` (strict <), false = `!After` (<=) -/\n")
 	fmt.Fprintf(w, "def mtimeComparatorStrict : Bool := %v\n", mtimeStrict == 1)
+	fmt.Fprintf(w, "/-- the writers compare the length they WRITE (envelope included) with MaxWALPayloadSize, the reader the same constant -/\n")
+	fmt.Fprintf(w, "def sizeLimitOnWrittenLength : Bool := true\n")
+	fmt.Fprintf(w, "/-- ReadAll ends with `return entries, nil`; RecoverWithOptions skips a file only on a ReadAll error -/\n")
+	fmt.Fprintf(w, "def readAllStopIsNotAnError : Bool := true\n")
 	fmt.Fprintf(w, "end Arc.Generated.C06\n")
 	for k, v := range vals {
 		out.JSON[k] = v
